@@ -213,10 +213,14 @@ def reaction_emitters(run, repo):
         g = opaque_species(I, 'g1', 'gas')
         a = opaque_species(I, 'a1', surf)
         b = opaque_species(I, 'a2', surf)
-        for o_, w_ in ((g, 2), (a, 3), (b, 4)):
+        a3 = opaque_species(I, 'a3', surf)
+        for o_, w_ in ((g, 2), (a, 3), (b, 4), (a3, 5)):
             o_.attrs['name'] = text(I, o_.name, w_)
         rid = text(I, 'rid', 6)
-        attrs = {'_reactants': ListV([g, a]), '_reactants_stoich': ListV([C(1), C(1)]), '_products': ListV([b]),
+        # a surface step has two surface reactants: its pre-exponential factor then carries a power of the site
+        # density and depends on the quantity/length units requested
+        r0 = g if adsorption else a3
+        attrs = {'_reactants': ListV([r0, a]), '_reactants_stoich': ListV([C(1), C(1)]), '_products': ListV([b]),
                  '_products_stoich': ListV([C(2)]), '_transition_state': None, '_transition_state_stoich': None,
                  'notes': None, '_id': rid, 'is_adsorption': adsorption, 'A': None, '_beta': D.sym('beta'),
                  'Ea': D.sym('Ea_user') if user_ea else None, 'direction': None,
@@ -248,7 +252,7 @@ def reaction_emitters(run, repo):
                       'rate parameters written: %s; the model gives A=%s beta=beta Ea=%s in the requested units'
                       % (show(ListV(nums), 200), show(wantA, 80), show(wantE, 100)), owner.module, fn,
                       sample='SurfaceReaction.to_cti [%s]: [A, beta, Ea] from the model' % label)
-            run.check(texts == [g.attrs['name'], a.attrs['name'], b.attrs['name'], rid], 'DATAFLOW.reaction',
+            run.check(texts == [r0.attrs['name'], a.attrs['name'], b.attrs['name'], rid], 'DATAFLOW.reaction',
                       'SurfaceReaction.to_cti', label + ' equation and id',
                       'equation/id fields are %s' % [str(t).strip(Z) for t in texts], owner.module, fn)
         owner, fn = repo.find_method(ci, 'to_omkm_yaml')
